@@ -154,9 +154,11 @@ class Fn:
       attrs    : {attr: type} `self.attr` readable as variable `self_attr`
     """
 
-    def __init__(self, name, fdef, spec):
+    def __init__(self, name, fdef, spec, body=None, params=None):
         self.name = name
         self.f = fdef
+        self.body = body if body is not None else fdef.body
+        self.pnames = params
         self.spec = spec
         self.aux = []       # generated Fixpoints
         self.nloops = 0
@@ -372,9 +374,9 @@ class Fn:
         if isinstance(st, ast.Return):
             return self.ret(st.value, env, st)
         if isinstance(st, ast.Raise):
-            return 'Exc "%s"' % self.exc_name(st.exc)
+            return 'Exc "%s"%%string' % self.exc_name(st.exc)
         if isinstance(st, ast.Assert):
-            return '(if %s then %s else Exc "AssertionError")' % (self.cond(st.test, env), nxt(env))
+            return '(if %s then %s else Exc "AssertionError"%%string)' % (self.cond(st.test, env), nxt(env))
         if isinstance(st, ast.Expr) and isinstance(st.value, ast.Call):
             c = st.value
             # byte sink:  stream(b)
@@ -382,6 +384,20 @@ class Fn:
                 t, ty = self.ex(c.args[0], env)
                 self.need(ty, L, c)
                 return "(let %s := %s ++ %s in\n %s)" % (self.acc, self.acc, t, nxt(env))
+            # call of another translated byte-sink function with our own sink:  int2b128(n, write)
+            sinks = self.spec.get("sink_calls", {})
+            if isinstance(c.func, ast.Name) and c.func.id in sinks and c.args and isinstance(c.args[-1], ast.Name) \
+                    and c.args[-1].id == self.acc:
+                g, argtys = sinks[c.func.id]
+                args = []
+                for a, want in zip(c.args[:-1], argtys):
+                    t, ty = self.ex(a, env)
+                    self.need(ty, want, a)
+                    args.append(t)
+                if len(args) != len(argtys):
+                    bail(c, "arity of sink call")
+                return "(match %s %s %s with Exc tag => Exc tag | Ok %s =>\n %s end)" % (
+                    g, " ".join(args), self.acc, self.acc, nxt(env))
             # xs.append(six.int2byte(e)) on a flat byte list
             if isinstance(c.func, ast.Attribute) and c.func.attr == "append" and isinstance(c.func.value, ast.Name) \
                     and env.get(c.func.value.id) == L and len(c.args) == 1:
@@ -504,7 +520,7 @@ class Fn:
         body = self.block(st.body, dict(env), lambda env2: "%s fuel %s" % (lname, args))
         exit_ = nxt(dict(env))
         self.aux.append(
-            "Fixpoint %s (fuel : nat) %s {struct fuel} : res (%s) :=\n match fuel with\n | O => Exc \"OutOfFuel\"\n"
+            "Fixpoint %s (fuel : nat) %s {struct fuel} : res (%s) :=\n match fuel with\n | O => Exc \"OutOfFuel\"%%string\n"
             " | S fuel =>\n  if %s\n  then %s\n  else %s\n end." % (lname, sig, self.full_rty(), c, body, exit_))
         return "(%s (%s) %s)" % (lname, fuel, args)
 
@@ -541,7 +557,7 @@ class Fn:
     def emit(self):
         spec = self.spec
         env = {}
-        pnames = [a.arg for a in self.f.args.args if a.arg != "self"]
+        pnames = self.pnames if self.pnames is not None else [a.arg for a in self.f.args.args if a.arg != "self"]
         for p in pnames:
             if p in spec.get("drop", []):
                 continue
@@ -568,7 +584,7 @@ class Fn:
             if mods:
                 return "Ok (tt, %s)" % ", ".join("self_" + m for m in mods)
             return "Ok tt"
-        body = self.block(self.f.body, env, fall_off)
+        body = self.block(self.body, env, fall_off)
         out = "\n\n".join(self.aux)
         if out:
             out += "\n\n"
@@ -581,7 +597,6 @@ From Coq Require Import ZArith List String Bool.
 Import ListNotations.
 Require Import Verif.lib.PyLite.
 Local Open Scope Z_scope.
-Local Open Scope string_scope.
 '''
 
 
@@ -593,6 +608,11 @@ def translate_function(rel, qual, name, spec):
     if f.args.vararg or f.args.kwarg or f.args.kwonlyargs:
         raise Untranslatable("%s has star-args" % qual)
     return Fn(name, f, spec).emit()
+
+
+def translate_block(name, stmts, params, spec):
+    """translate a statement list (e.g. one branch of a method) as a function of `params` (ordered names)"""
+    return Fn(name, None, spec, body=stmts, params=params).emit()
 
 
 def write_if_changed(path, text):
